@@ -310,3 +310,44 @@ def generate(rng, tier):
         e = rng.choice(['1e15', '-9.9e14', '1e-320', '123456789012345', '0.000000000000001', '1E+15'])
         yield total(f'svg.parse {hx("M" + e + " 0l" + e + " " + e + "c1 1 2 2 " + e + " 0z")}', 'svg-large-numbers')
 
+
+
+# ------------------------------------------------------------------ known finding: the dash defect C13-closed-subpath-inside-first-dash seen through stroke()
+
+def _parse_stroke_line(line):
+    """path.stroke W join cap miter offset npat pats... tol ELS  ->  (offset, pattern, els) or None"""
+    t = line.split()
+    if not t or t[0] != 'path.stroke':
+        return None
+    try:
+        off = h2f(t[5])
+        n = int(t[6])
+        pat = [h2f(x) for x in t[7:7 + n]]
+        rest = t[8 + n:]
+        els, i = [], 0
+        ar = {'M': 1, 'L': 1, 'Q': 2, 'C': 3, 'Z': 0}
+        while i < len(rest):
+            k = rest[i]
+            pts = [(h2f(rest[i + 1 + 2 * j]), h2f(rest[i + 2 + 2 * j])) for j in range(ar[k])]
+            els.append((k,) + tuple(pts))
+            i += 1 + 2 * ar[k]
+        return off, pat, els
+    except (ValueError, IndexError, KeyError):
+        return None
+
+
+def stroke_dash_closed_inside_first(case, outs, verdict):
+    """root cause (input only): a DASHED stroke of a path with a closed sub-path that returns to its start by itself and is not longer than the rest of
+    the first dash: the dash iterator emits ClosePath before the last segment (known finding C13-closed-subpath-inside-first-dash); the stray piece
+    that follows can have coincident end points and a zero tangent, and do_join divides by its length -> NaN in the outline"""
+    if 'non-finite' not in verdict:
+        return False
+    from .c13 import closed_subpath_inside_first_dash
+    for ln in case.lines:
+        p = _parse_stroke_line(ln)
+        if p and p[1] and closed_subpath_inside_first_dash(p[2], p[0], p[1]):
+            return True
+    return False
+
+
+KNOWN_CLASSES = {'stroke_dash_closed_inside_first': stroke_dash_closed_inside_first}
